@@ -313,6 +313,18 @@ Print Assumptions C26_deploy_undeploy_micro.
 Print Assumptions C26_lazy_micro.
 Print Assumptions C26_lazy_fail_wakes_micro.
 
+(* --- wrappers without `wraps` (final round): the implicit "__LOCAL__" deployment is now inside the model ---
+   (_inner_deploy: `if deployment_config.wraps is None: ... await self._deploy(LocalTarget().deployment)`).  Two such
+   wrappers deployed concurrently and torn down by undeploy_all(): every interleaving satisfies once (in
+   particular __LOCAL__ is deployed once), return_after and wrap_order (the local connector is not undeployed
+   while a wrapper connector is live).  `_partial`: one scenario (bounded), by the verified explorer. *)
+Theorem C26_local_wrappers_partial : forall sched,
+  valid false loc_deps (init loc_reqs) sched = true ->
+  loc_P (run false loc_deps (init loc_reqs) sched) = true.
+Proof. exact loc_all_schedules. Qed.
+
+Print Assumptions C26_local_wrappers_partial.
+
 (* --- fail_wakes is false of the current code: d1 wraps d0, d0's deploy fails; the second deploy(d1) is
    blocked for ever (no task is ready, task 1 is not done) *)
 Theorem C26_fail_wakes_refuted :
